@@ -250,7 +250,7 @@ func (c *Ctx) setVar(s *State, v *types.Var, val Value) {
 // declVar introduces a new local (boxed ones get a fresh cell).
 func (c *Ctx) declVar(s *State, v *types.Var, val Value) {
 	if at, ok := v.Type().Underlying().(*types.Array); ok {
-		if _, isSl := val.(SliceV); !isSl {
+		if sv, isSl := val.(SliceV); !isSl || sv.Ref == "0" {
 			// arrays are modelled as fixed-length slices with their own backing store (value copies are not modelled)
 			n := num(at.Len())
 			val = c.allocSlice(s, at.Elem(), n, n, true)
@@ -267,6 +267,9 @@ func (c *Ctx) declVar(s *State, v *types.Var, val Value) {
 
 // nameValue replaces long terms by named constants.
 func (c *Ctx) nameValue(s *State, name string, v Value) Value {
+	if c.inQuant > 0 {
+		return v // the term may mention bound variables
+	}
 	switch x := v.(type) {
 	case IntV:
 		if len(x.T) > 48 {
